@@ -65,10 +65,13 @@ def run_tasks(tasks):
     ctx = multiprocessing.get_context("fork")
     with ctx.Pool(min(NCPU, len(tasks)), initializer=_worker_init) as pool:
         res = pool.map(_run_task, tasks, chunksize=1)
-    errs = [r for r in res if "error" in r]
+    flat = []
+    for r in res:
+        flat.extend(r if isinstance(r, list) else [r])
+    errs = [r for r in flat if "error" in r]
     if errs:
         raise HarnessError("scenario driver failed: " + errs[0]["error"] + "\n" + errs[0]["tb"])
-    return res
+    return flat
 
 
 def drv_random_hpc(seed, gen_kw):
@@ -93,7 +96,59 @@ def drv_model_replay(scn, path, maxb, elog):
     return tr
 
 
-DRIVERS = {"random_hpc": drv_random_hpc, "scn": drv_scn, "model_replay": drv_model_replay}
+def batching_scn(inp):
+    """The scenario realising one abstract batching input (Batching.tla's Init space): jobs J1..JN in listing order in
+    group g0; a blocker outside the list (0) is job X in a second group that is processed afterwards."""
+    n = len(inp["rem"])
+    names = [f"J{k + 1}" for k in range(n)]
+    has_ext = any(0 in r for r in inp["rem"])
+    jobs = names + (["X"] if has_ext else [])
+    blk = {names[k]: sorted(("X" if b == 0 else names[b - 1]) for b in inp["rem"][k]) for k in range(n)}
+    if has_ext:
+        blk["X"] = []
+    g0 = families.G("g0", size=inp["size"], tb=inp["tb"], tryadd=inp["tryadd"], procs=1, wall=inp["cap"] if inp["tb"] else 10)
+    groups = [g0] + ([families.G("gx", size=1, procs=1)] if has_ext else [])
+    est = {names[k]: (inp["est"][k] if inp["tb"] else 0) for k in range(n)}
+    grp = {j: "g0" for j in names}
+    if has_ext:
+        est["X"] = 0
+        grp["X"] = "gx"
+    return families.scn(jobs, blk=blk, est=est, groups=groups, grp=grp, maxnodes=inp["maxnodes"])
+
+
+def drv_batching_input(inp, seed):
+    scn = batching_scn(inp)
+    tr = run.run_first_round(scn, seed)
+    idx = {f"J{k + 1}": k + 1 for k in range(len(inp["rem"]))}
+    obs = [[idx[j] for j in b] for b in run.first_round_batches(tr) if b and b[0] in idx]
+    tr["batching_obs"] = dict(inp, batches=obs)
+    tr["driver"] = ["batching_input", inp, seed]
+    return tr
+
+
+def drv_dry_pair(seed, gen_kw):
+    """The same scenario run for real (first round) and as a dry run; the dry trace carries the real first round."""
+    rng = random.Random(seed)
+    scn = scenario.gen(rng, **gen_kw)
+    real = run.run_first_round(scn, seed)
+    real["driver"] = ["first_round", scn, seed]
+    dry = json.loads(json.dumps(scn))
+    for g in dry["groups"]:
+        g["dry"] = True
+    dry["firstround"] = run.first_round_batches(real)
+    drytr = run.run_first_round(dry, seed)
+    drytr["driver"] = ["first_round", dry, seed]
+    return [real, drytr]
+
+
+def drv_first_round(scn, seed):
+    tr = run.run_first_round(scn, seed)
+    tr["driver"] = ["first_round", scn, seed]
+    return tr
+
+
+DRIVERS = {"random_hpc": drv_random_hpc, "scn": drv_scn, "model_replay": drv_model_replay,
+           "batching_input": drv_batching_input, "dry_pair": drv_dry_pair, "first_round": drv_first_round}
 
 
 # ------------------------------------------------------------------ known findings
@@ -345,7 +400,75 @@ def make_protocol_check(salt, gen_kw=None):
     return chk
 
 
-CHECKS = {"C01": check_C01}
+def batching_inputs(n, maxest=2, capextra=2):
+    """Python enumeration of Batching.tla's Init space (same constraints)."""
+    import itertools
+    names = list(range(1, n + 1))
+    remsets = []
+    for j in names:
+        others = [0] + [k for k in names if k != j]
+        remsets.append([list(c) for r in range(len(others) + 1) for c in itertools.combinations(others, r)])
+    for rem in itertools.product(*remsets):
+        for tb in (False, True):
+            ests = itertools.product(range(1, maxest + 1), repeat=n) if tb else [tuple([1] * n)]
+            for est in ests:
+                for tryadd in (False, True):
+                    for cap in (range(maxest, maxest + capextra + 1) if tb else [maxest]):
+                        for size in ([1] if tb else range(1, n + 1)):
+                            for mn in range(1, n + 1):
+                                yield {"rem": [list(r) for r in rem], "est": list(est), "tb": tb, "tryadd": tryadd,
+                                       "cap": cap, "size": size, "maxnodes": mn, "repaired": True}
+
+
+def check_batching_conformance(ctx, traces):
+    """TLC (BatchTrace.tla) decides whether each observed (input, batches) pair is what the closed form computes."""
+    obs = []
+    for i, tr in enumerate(traces):
+        o = dict(tr["batching_obs"])
+        o["id"] = i
+        obs.append(o)
+    path = os.path.join(VERIF, "out", f"batchobs_{os.getpid()}.json")
+    with open(path, "w") as f:
+        json.dump(obs, f)
+    res = tlc.run_tlc("BatchTrace", cfg="BatchTrace.cfg", workers=1, env={"TRACE_FILE": path}, timeout=3000)
+    os.remove(path)
+    if not tlc.tlc_ok(res):
+        raise tlc.TlcError("BatchTrace failed:\n" + res["out"][-2000:])
+    dis = [l for l in res["out"].split("\n") if "DISAGREE" in l]
+    conf = ctx.extra.setdefault("batching_conformance", {"observed_inputs": 0, "disagreements": 0})
+    conf["observed_inputs"] += len(obs)
+    conf["disagreements"] += len(dis)
+    for l in dis[:5]:
+        ctx.notes.append("model-drift: batches observed on the real code differ from Batching's closed form: " + l[:300])
+    ctx.models.append({"name": "BatchTrace (observed batches vs closed form)", "module": "BatchTrace", "states": res["distinct"],
+                       "transitions": res["states"], "wall_s": round(res["wall"], 1), "ok": True})
+
+
+def check_C07(ctx):
+    q = ctx.tier == "quick"
+    ctx.model("Batching N<=3 exhaustive", "Batching", "Batching_quick.cfg")
+    rng = random.Random(ctx.seed)
+    allin = list(batching_inputs(3))
+    inter = [x for x in allin if x["tryadd"] and any(r for r in x["rem"])]
+    pick = allin if not q else (rng.sample(inter, 900) + rng.sample(allin, 600))
+    if not q:
+        ctx.extra["batching_inputs_enumerated"] = len(allin)
+    tr1 = run_tasks([("batching_input", (inp, 0)) for inp in pick])
+    check_batching_conformance(ctx, tr1)
+    ctx.judge(tr1, "enumerated batching inputs (first round of the real submit-jobs)")
+    kw = dict(n_min=2, n_max=8 if q else 12, groups_max=3)
+    tr2 = run_tasks([("dry_pair", (s, kw)) for s in seeds(ctx, 300 if q else 3000, 7)])
+    ctx.judge(tr2, "random job lists with 1-3 groups: real first round and dry run")
+    tr3 = run_tasks([("random_hpc", (s, dict(n_min=2, n_max=6, groups_max=3))) for s in seeds(ctx, 150 if q else 1500, 8)])
+    ctx.judge(tr3, "random HPC submissions with 1-3 groups")
+    return ctx.finish(rule="(a) TLC enumerates all batching inputs N<=3 on Batching.tla; (b) the same input space is enumerated in "
+                           "Python (quick: stratified sample; thorough: all) and executed on the real submit-jobs, the observed "
+                           "batches validated by TLC against the closed form (BatchTrace.tla) and the traces against the C07 "
+                           "clauses; (c) random job lists <=12 jobs with 1-3 groups and random group parameters, each run for real "
+                           "and as dry run (DryRunSame); (d) random full submissions", exhaustive=not q)
+
+
+CHECKS = {"C01": check_C01, "C07": check_C07}
 for _i, _p in enumerate(["C02", "C03", "C04", "C05", "C06", "C09"]):
     CHECKS[_p] = make_protocol_check(10 + _i)
 
